@@ -135,18 +135,22 @@ func (c *mqttClient) Publish(topic string, qos byte, retained bool, payload inte
 	var p []byte
 	switch x := payload.(type) {
 	case []byte:
-		p = append([]byte{}, x...)
+		p = x
 	case string:
 		p = []byte(x)
 	}
 	c.b.mu.Lock()
 	if c.b.holdPub && strings.HasPrefix(c.name, "server-") && !c.b.deadPub[c.name] {
+		// The real client library keeps the caller's slice in the packet and writes it to the connection
+		// later, from a goroutine of its own, while the caller waits for the token: the bytes that go out
+		// are the ones the slice holds when the simulator lets the publish go.
 		h := &heldPub{owner: simmongo.CurrentOwner(), from: c.name, topic: topic, payload: p, release: make(chan struct{})}
 		c.b.held = append(c.b.held, h)
 		c.b.mu.Unlock()
 		<-h.release
 		c.b.mu.Lock()
 	}
+	p = append([]byte{}, p...)
 	defer c.b.mu.Unlock()
 	if c.b.deadPub[c.name] {
 		return &token{}
